@@ -425,6 +425,64 @@ pub fn multi_logs(_args: &[String]) -> String {
     format!("{{\"found\": false, \"tried\": {}}}", tried)
 }
 
+/// C02 / C03 with MultiProgressAlignment::Bottom: printed lines stay (once, in order) above the region, the live
+/// bars follow in order at the bottom; only blank rows (what the bars no longer use) may lie between the two.
+pub fn multi_bottom(_args: &[String]) -> String {
+    std::panic::set_hook(Box::new(|_| {}));
+    use indicatif::MultiProgressAlignment;
+    let mut tried = 0u64;
+    // op: 0 = mp.println, 1..=3 = remove bar i, 4..=6 = bar i println, 7..=9 = bar i finish_and_clear + drop
+    let run = |ops: &[usize], tried: &mut u64| -> Option<String> {
+        let term = InMemoryTerm::new(H, W as u16);
+        let mp = MultiProgress::with_draw_target(ProgressDrawTarget::term_like(Box::new(term.clone())));
+        mp.set_alignment(MultiProgressAlignment::Bottom);
+        let mut bars: Vec<Option<ProgressBar>> = (0..3).map(|i| {
+            let pb = mp.add(ProgressBar::new(10));
+            pb.set_style(ProgressStyle::with_template("{msg} {pos}").unwrap());
+            pb.set_message(format!("bar{}", i));
+            Some(pb)
+        }).collect();
+        for pb in bars.iter().flatten() { pb.tick(); }
+        let mut logs: Vec<String> = vec![];
+        let mut hist = vec!["MultiProgress with Bottom alignment, three bars with template {msg} {pos}, all ticked".to_string()];
+        for (k, op) in ops.iter().enumerate() {
+            match *op {
+                0 => { let t = format!("log-{}", k); let _ = mp.println(&t); logs.push(t.clone()); hist.push(format!("mp.println({:?})", t)); }
+                1..=3 => match bars[op - 1].take() { Some(pb) => { mp.remove(&pb); hist.push(format!("mp.remove(bar{})", op - 1)); } None => return None },
+                4..=6 => match &bars[op - 4] { Some(pb) => { let t = format!("blog-{}", k); pb.println(&t); logs.push(t.clone()); hist.push(format!("bar{}.println({:?})", op - 4, t)); } None => return None },
+                _ => match bars[op - 7].take() { Some(pb) => { pb.finish_and_clear(); drop(pb); hist.push(format!("bar{}.finish_and_clear(); drop", op - 7)); } None => return None },
+            }
+            for pb in bars.iter().flatten() { pb.tick(); }
+            hist.push("tick every live bar".into());
+            let live: Vec<String> = (0..3).filter(|i| bars[*i].is_some()).map(|i| format!("bar{} 0", i)).collect();
+            if live.is_empty() && (1..=3).contains(op) {
+                continue;   // remove() itself paints nothing: the rows go away with the next draw
+            }
+            *tried += 1;
+            // any number of blank rows may separate the printed lines from the bars (the region keeps rows the
+            // bars no longer use); nothing else may differ
+            let got = term.contents();
+            let got = got.trim_end_matches('\n').to_string();   // blank rows at the end are part of the (empty) region
+            let rows: Vec<&str> = if got.is_empty() { vec![] } else { got.split('\n').collect() };
+            let nblank = rows.len().saturating_sub(logs.len() + live.len());
+            let mut want: Vec<String> = logs.clone();
+            if !live.is_empty() {
+                for _ in 0..nblank { want.push(String::new()); }
+                want.extend(live.iter().cloned());
+            }
+            let want = want.join("\n");
+            if got != want {
+                return Some(report("C03 printed lines stay once, in order, above the region; C02 live bars in order at the bottom (Bottom alignment: only blank rows between them)", &hist, &want, &got, "multi_bottom"));
+            }
+        }
+        None
+    };
+    for a in 0..10 { for b in 0..10 { for c in 0..10 { for d in 0..10 {
+        if let Some(r) = run(&[a, b, c, d], &mut tried) { return r; }
+    }}}}
+    format!("{{\"found\": false, \"tried\": {}}}", tried)
+}
+
 /// C04: the configured finish behaviour is applied at every completion of a reused bar (finish, reset, finish again;
 /// iterator exhaustion twice; drop after reset), standalone and inside a MultiProgress.
 pub fn bar_reuse(_args: &[String]) -> String {
